@@ -136,6 +136,8 @@ def _lane_main(k, engine_name, ctx, cmd_r, res_w):
             os.makedirs(run_dir)
             job = dict(job, run_dir=run_dir)
             t0 = time.monotonic()
+            if hasattr(engine, "pre_job"):
+                job = engine.pre_job(job, ctx)
             res = run_in_child(engine.execute, job, job.get("timeout", ctx.get("timeout", 120)), os.path.join(lane_dir, "out.txt"))
             res["wall"] = time.monotonic() - t0
             res["job_id"] = job.get("job_id")
